@@ -6,6 +6,7 @@ widths, borders × headers, any three-token character set — no hypothesis on w
 -/
 import RosedVerif.Model.InstAFacts
 import RosedVerif.Model.CompositeLemmas
+import RosedVerif.Model.BridgeComposite
 namespace RosedVerif.Props
 open RosedVerif
 variable {α : Type} [DecidableEq α] (cx : Ctx α)
@@ -56,5 +57,35 @@ theorem C16_only_empty_rows (data : List (List (List α))) (width : Int) (header
 /-- InsertTable is total on arbitrary code-point data -/
 theorem C16_total (ed : Editor Int) (p : Int) (d : List (List (List Int))) (w : Int) (o : Options Int) :
     ∃ r, ed.insertTableOpts cxA p d w o = .ok r := insertTableOpts_total cxA_Sane ed p d w o
+
+/-- **bridge to code points**: on a stable vocabulary (closed under upper-casing when headers are on — necessary: U+0345 upper-cases out of its cluster, `BridgeComposite.hup_needed`) the model of InsertTableOpts run on CODE POINTS with the real segmentation returns the flattening of the cluster-level table, and every line has exactly max(W, minimum width) REAL grapheme clusters: the table is rectangular -/
+theorem C16_code_points {V : List (List Int)} (hV : VocabStable V = true)
+    (hsp : [0x20] ∈ V)
+    (toks : List (List Int))
+    (ht : ∀ t ∈ toks, t ∈ V)
+    (o0 : Options (List Int))
+    (pos : Int)
+    (data : List (List (List (List Int))))
+    (hdata : ∀ row ∈ data, ∀ cell ∈ row, ∀ t ∈ cell, t ∈ V)
+    (width : Int)
+    (o : Options (List Int))
+    (hL : ∀ t ∈ (o.withDefaults cxB).lineSep, t ≠ [])
+    (hc : ∀ t ∈ o.charset, t ∈ V)
+    (hcd : ∀ t ∈ (o.withDefaults cxB).charset, t ∈ V)
+    (hup : o.headers = true → ∀ t ∈ V, t.map upperRune ∈ V) :
+    ∃ ls : List (List (List Int)),
+      ls = makeTable cxB data width (o.withDefaults cxB).headers (o.withDefaults cxB).borders
+        (o.withDefaults cxB).charset ∧
+      Editor.insertTableOpts cxA (.root toks.flatten o0.flat) pos
+          (data.map (List.map List.flatten)) width o.flat =
+        .ok (.root (toks.take (Spec.normPos toks.length pos).toNat ++
+          (if (!(o.withDefaults cxB).noTrailing) = true ∧
+              (!(Block.mk ls (o.withDefaults cxB).lineSep false).join.isEmpty) = true then
+            (Block.mk ls (o.withDefaults cxB).lineSep false).join ++ (o.withDefaults cxB).lineSep
+          else (Block.mk ls (o.withDefaults cxB).lineSep false).join) ++
+          toks.drop (Spec.normPos toks.length pos).toNat).flatten o0.flat) ∧
+      ∀ line ∈ ls, clusters cxA line.flatten = line ∧
+        (gLen cxA line.flatten : Int) = max width (tableMinWidth data o.borders) :=
+  insertTableOpts_bridge_C16 hV hsp toks ht o0 pos data hdata width o hL hc hcd hup
 
 end RosedVerif.Props
